@@ -167,7 +167,7 @@ func init() {
 		os.Exit(0)
 	}
 	rep := vx.NewReport("C20", *tier, "fault_enumeration")
-	rep.Rule = "to_nsq: every input over {a, b, delimiter, NUL} up to length N x delimiter {LF, comma, NUL} + records of 4095/4096/4097 bytes with and without a final delimiter, through the real readAndPublish loop and real nsq.Producers into recording nsqd stand-ins (1 and 2 destinations). nsq_to_nsq: every verdict string of length <= 4 over {OK, error frame, close, close before reading, destination down (no live connection, next connect cut off)} x mode {round-robin, hostpool, epsilon-greedy} x destinations {1,2} through the real PublishHandler/responder, source messages with a recording delegate, re-offered after a requeue. nsq_to_http: every status string of length <= 4 over {200,201,204,301,400,404,500,503,close} x {GET,POST} x mode x endpoints {1,2} through the real HandleMessage. distinct = distinct (tool, case class, outcome)"
+	rep.Rule = "to_nsq: every input over {a, b, delimiter, NUL} up to length N x delimiter {LF, comma, NUL} + records of 4095/4096/4097 bytes with and without a final delimiter, through the real readAndPublish loop and real nsq.Producers into recording nsqd stand-ins (1 and 2 destinations). nsq_to_nsq: every verdict string of length <= 4 over {OK, error frame, close, close before reading, destination down (no live connection, next connect cut off)} x mode {round-robin, hostpool, epsilon-greedy} x destinations {1,2} through the real PublishHandler/responder, source messages with a recording delegate, re-offered after a requeue; plus every filter configuration (--require-json-field x --require-json-value x --whitelist-json-field) x 17 message shapes against a reference filter. nsq_to_http: every status string of length <= 4 over {200,201,204,301,400,404,500,503,close} x {GET,POST} x mode x endpoints {1,2} through the real HandleMessage. distinct = distinct (tool, case class, outcome)"
 	rep.Assumptions = []string{"go-nsq turns a nil handler return / Finish() into FIN and an error / Requeue() into REQ", "real loopback sockets, no controlled scheduler: nothing here is scheduling-dependent beyond go-nsq's own request/response pairing"}
 	merge := func(p partResult) {
 		rep.Evaluations += p.Evaluations
